@@ -84,13 +84,14 @@ HeaderWritable(s) == /\ Len(s) >= 1
                      /\ \A i \in 1..Len(s) : \A j \in 1..Min(Len(s[i]), Len(s[1])) : s[i][j][1] = s[1][j][1]
 DataRow(s, i) == [j \in 1..Max(Len(s[i]), Len(s[1])) |-> IF j <= Len(s[i]) THEN s[i][j][2] ELSE <<>>]
 \* the reverse: header row + data rows -> records (csv-with-and-without-headers.md, record-heterogeneity.md,
-\* flags --implicit-csv-header "Use 1,2,3,... as field labels", --allow-ragged-csv-input "If a data line has fewer
-\* fields than the header line, fill remaining keys with empty string.  If a data line has more fields than the
-\* header line, use integer field labels as in the implicit-header case.")
+\* flags --implicit-csv-header "Use 1,2,3,... as field labels", --allow-ragged-csv-input "If a data line has more
+\* fields than the header line, use integer field labels as in the implicit-header case.")
 ZipRow(v, h, d) ==
   IF Len(d) = Len(h) THEN OK(Zip(h, d))
   ELSE IF ~Ragged(v) THEN Bad
-  ELSE IF Len(d) < Len(h) THEN OK([j \in 1..Len(h) |-> <<h[j], IF j <= Len(d) THEN d[j] ELSE <<>> >>])
+  \* a data line shorter than the header: the flag text says "fill remaining keys with empty string", the worked example
+  \* in record-heterogeneity.md shows the record without those keys -- contradictory, so not modelled
+  ELSE IF Len(d) < Len(h) THEN Bad
   ELSE OK([j \in 1..Len(d) |-> <<IF j <= Len(h) THEN h[j] ELSE NumKey(j), d[j]>>])
 ZipRows(v, rows) ==
   IF rows = <<>> THEN OK(<<>>)
@@ -110,19 +111,15 @@ CSVMustQuote(c) == HasAny(c, {"FS", "Q", "CR", "LF"})
 CSVQuoteIt(q, line, fld) == q = "all" \/ (q = "alt" /\ (line + fld) % 2 = 0)
 CSVField(q, line, fld, c) == IF CSVMustQuote(c) \/ CSVQuoteIt(q, line, fld) THEN CSVQuoted(c) ELSE c
 CSVLine(q, line, cells) == JoinWith([j \in 1..Len(cells) |-> CSVField(q, line, j, cells[j])], <<"FS">>)
-\* ragged style (only for the --allow-ragged-csv-input reader): trailing empty fields of a data line are left out,
-\* but never the first one
-RECURSIVE DropEmptyTail(_)
-DropEmptyTail(cells) == IF Len(cells) > 1 /\ Last(cells) = <<>> THEN DropEmptyTail(SubSeq(cells, 1, Len(cells) - 1)) ELSE cells
-\* st = [hdr, q, eol, final, bom, short]
+\* st = [hdr, q, eol, final, bom]
 CSVRowsOf(st, s) == (IF st.hdr THEN <<KeysOf(s[1])>> ELSE <<>>) \o
-                    [i \in 1..Len(s) |-> IF st.short THEN DropEmptyTail(DataRow(s, i)) ELSE DataRow(s, i)]
+                    [i \in 1..Len(s) |-> DataRow(s, i)]
 CSVText(st, s) ==
   LET rows == CSVRowsOf(st, s)
       body == JoinWith([i \in 1..Len(rows) |-> CSVLine(st.q, i, rows[i])], st.eol)
   IN (IF st.bom THEN <<"BOM">> ELSE <<>>) \o body \o (IF st.final THEN st.eol ELSE <<>>)
 CSVStyle(v) == [hdr |-> ~Headerless(v), q |-> IF QuoteAll(v) THEN "all" ELSE "min", eol |-> EOL(v),
-                final |-> TRUE, bom |-> FALSE, short |-> FALSE]
+                final |-> TRUE, bom |-> FALSE]
 EncodeCSV(v, s) == CSVText(CSVStyle(v), s)
 
 \* The RFC 4180 grammar as a machine over tokens.  m: "sor" start of record, "sof" start of a further field,
